@@ -2,6 +2,7 @@ package gabi
 
 import (
 	"github.com/privacybydesign/gabi/big"
+	"github.com/privacybydesign/gabi/revocation"
 )
 
 func init() {
@@ -31,6 +32,16 @@ func vpC07_O1() {
 	if hist == 1 {
 		vpAssume(cred.NonrevPrepareCache() == nil)
 	}
+	if vpBool("witnessUpdatedAfterPrepare") {
+		// another value is revoked and the holder's witness follows, without preparing again
+		other := vpPrime("eOther", big.NewInt(3), big.NewInt(65521))
+		vpAssume(other.Cmp(cred.NonRevocationWitness.E) != 0)
+		newAcc, ev, err := s.acc.Remove(s.sk, other, s.upd.Events[0])
+		vpAssume(err == nil)
+		upd, err := revocation.NewUpdate(s.sk, newAcc, []*revocation.Event{s.upd.Events[0], ev})
+		vpAssume(err == nil)
+		vpAssume(cred.NonRevocationWitness.Update(s.pk, upd) == nil)
+	}
 	p1, err := cred.CreateDisclosureProof(nil, nil, nonrev1, ctx1, nonce1)
 	vpAssume(err == nil)
 	if hist == 2 {
@@ -48,7 +59,9 @@ func vpC07_O1() {
 	vpAssert("e and v responses use fresh randomisers", p1.EResponse.Cmp(p2.EResponse) != 0 && p1.VResponse.Cmp(p2.VResponse) != 0)
 	if nonrev1 && nonrev2 {
 		n1, n2 := p1.NonRevocationProof, p2.NonRevocationProof
-		vpAssert("non-revocation commitments are fresh", !vpSameGroupElem(n1.Cr, n2.Cr) && !vpSameGroupElem(n1.Cu, n2.Cu))
+		// (C_u is legitimately left unreduced after a refresh of the cached commitment: compare modulo N)
+		cu1, cu2 := new(big.Int).Mod(n1.Cu, s.pk.N), new(big.Int).Mod(n2.Cu, s.pk.N)
+		vpAssert("non-revocation commitments are fresh", !vpSameGroupElem(n1.Cr, n2.Cr) && !vpSameGroupElem(cu1, cu2))
 		for _, name := range []string{"beta", "delta", "epsilon", "zeta"} {
 			vpAssert("non-revocation responses use fresh randomisers", n1.Responses[name].Cmp(n2.Responses[name]) != 0)
 		}
